@@ -585,6 +585,9 @@ func runCase(c reg.Case, out *reg.Out) {
 		}
 		return
 	}
+	for _, e := range w.LT.Shape() {
+		out.Fail("harness-lt-shape", "link tree of the reference traversal violates a hypothesis of the Lean theorems: %s", e)
+	}
 	s := NewSys(w)
 	defer s.Close()
 	or := newOracle(out, w)
@@ -780,33 +783,37 @@ func (o *oracle) responderStream(skip int) []expItem {
 	return out
 }
 
-// neededInWindow (known-finding input class skip-prefix-mismatch, decided from the case alone):
-// among the first `skip` links of the responder's OWN traversal there is one that lies beyond the
-// prefix the requestor loaded locally, that the responder holds, and whose block the requestor does
-// not hold — a block the requestor needs falls into the window it asked the responder to skip.
-// (Possible only if the responder lacks a block of that prefix and therefore skipped part of it.)
-func (o *oracle) neededInWindow() bool {
+// windowNeeded (known finding skip-prefix-mismatch, computed from the case alone): the link-tree nodes
+// among the first `skip` links of the responder's OWN traversal that lie beyond the prefix the
+// requestor loaded locally, that the responder holds, and whose block the requestor does not hold —
+// blocks the requestor needs that fall into the window it asked the responder to skip.  (Non-empty
+// only if the responder lacks a block of that prefix and therefore skipped part of it.)
+func (o *oracle) windowNeeded() []int {
 	if o.prefix >= len(o.w.LT.Loads) {
-		return false
+		return nil
 	}
+	var out []int
 	for i, e := range o.responderStream(o.prefix) {
 		if i >= o.prefix {
 			break
 		}
 		if e.node >= o.prefix && e.present && !o.loc0[e.c] {
-			return true
+			out = append(out, e.node)
 		}
 	}
-	return false
+	return out
 }
 
-// prefixBlockResent (known-finding input class skip-prefix-mismatch-resend, decided from the case
-// alone): the responder's traversal attaches, beyond its skip window, a block that belongs to the
-// prefix the requestor loaded locally (it met that block only on a path outside the window because
-// it skipped the subtree in which the requestor had loaded it).
-func (o *oracle) prefixBlockResent() bool {
+func (o *oracle) neededInWindow() bool { return len(o.windowNeeded()) > 0 }
+
+// prefixBlocksResent (known finding skip-prefix-mismatch-resend, computed from the case alone): the
+// blocks of the prefix the requestor loaded locally that the responder's traversal attaches beyond
+// its skip window (it met them only on a path outside the window because it skipped the subtree in
+// which the requestor had loaded them).
+func (o *oracle) prefixBlocksResent() map[int]bool {
+	out := map[int]bool{}
 	if o.prefix >= len(o.w.LT.Loads) {
-		return false
+		return out
 	}
 	inPrefix := map[int]bool{}
 	for k := 0; k < o.prefix; k++ {
@@ -814,11 +821,13 @@ func (o *oracle) prefixBlockResent() bool {
 	}
 	for _, e := range o.responderStream(o.prefix) {
 		if e.block && inPrefix[e.c] {
-			return true
+			out[e.c] = true
 		}
 	}
-	return false
+	return out
 }
+
+func (o *oracle) prefixBlockResent() bool { return len(o.prefixBlocksResent()) > 0 }
 
 func (o *oracle) request(user int64) {
 	o.started = true
@@ -1024,22 +1033,44 @@ func (o *oracle) finish(s *Sys) {
 	if lacksPref && !covered {
 		o.out.Cov("honest.lacks-prefix")
 	}
-	// known-finding input classes, decided from the case alone (not from what went wrong):
-	//   root-not-found-abort : the responder lacks the root block, which the requestor holds
-	//   skip-prefix-mismatch : a block the requestor needs (does not hold) is among the first
-	//                          `skip` links of the responder's own traversal, beyond the prefix
-	//                          the requestor loaded locally (neededInWindow)
-	cls := func(c string) string {
-		if covered || o.prefix == 0 {
-			return c
+	// Known findings are attributed by failure MODE, inside their input class only (both computed
+	// from the case alone); every other failure keeps its normal class even inside those classes:
+	//   root-not-found-abort : the responder lacks the root the requestor holds (store does not cover)
+	//                          AND the request ends early with RequestFailedContentNotFound
+	//   skip-prefix-mismatch : a link of windowNeeded() (needed block inside the skipped window) is
+	//                          reported missing — and what follows from that on the links it affects:
+	//                          its subtree is not visited, and the two traversals being out of step
+	//                          the request may end with RemoteIncorrectResponseError
+	inRootClass := !covered && o.prefix > 0 && !o.rem[w.LT.Loads[0].Block]
+	pathNode := map[string]int{}
+	for i2, p2 := range w.Paths {
+		pathNode[p2] = i2
+	}
+	// wset: the link-tree nodes whose block is such a block — the window occurrence itself and, since
+	// the responder then treats the block as already traversed (never sends it), its later occurrences
+	wset := map[int]bool{}
+	if !covered && o.prefix > 0 && !inRootClass {
+		wblocks := map[int]bool{}
+		for _, k := range o.windowNeeded() {
+			wblocks[w.LT.Loads[k].Block] = true
 		}
-		if !o.rem[w.LT.Loads[0].Block] {
-			return "root-not-found-abort"
+		for k := o.prefix; k < len(w.LT.Loads); k++ {
+			if wblocks[w.LT.Loads[k].Block] {
+				wset[k] = true
+			}
 		}
-		if o.neededInWindow() {
-			return "skip-prefix-mismatch"
+	}
+	belowW := func(path string, among map[string]bool) bool { // strict descendant of a W node reported missing
+		k, ok := pathNode[path]
+		if !ok {
+			return false
 		}
-		return c
+		for j2 := w.LT.Loads[k].Parent; j2 >= 0; j2 = w.LT.Loads[j2].Parent {
+			if wset[j2] && among[w.Paths[j2]] {
+				return true
+			}
+		}
+		return false
 	}
 	// reference traversal: a link is available if the requestor holds it (initially or fetched
 	// earlier in this request) or the responder holds it and followed every ancestor
@@ -1072,6 +1103,7 @@ func (o *oracle) finish(s *Sys) {
 	}
 	var gotMissing []string
 	hard := ""
+	wMissedBeforeHard := false
 	rootUnavailable := len(wantMissing) == 1 && wantMissing[0] == "-"
 	for _, e := range o.errs {
 		n := w.errName(e)
@@ -1086,32 +1118,69 @@ func (o *oracle) finish(s *Sys) {
 			}
 			f := strings.Split(n, ":")
 			gotMissing = append(gotMissing, f[2])
+			if k, ok := pathNode[f[2]]; ok && wset[k] && hard == "" {
+				wMissedBeforeHard = true
+			}
 		} else if strings.HasPrefix(n, "incorrect") || n == "extra" || !rootUnavailable {
 			// (when not even the root can be had, the request additionally ends with a generic failure)
-			hard = n
+			if hard == "" {
+				hard = n
+			}
 		}
 	}
 	if hard != "" {
-		o.out.Fail(cls("honest-rejected"), "honest exchange failed with %s", hard)
+		c := "honest-rejected"
+		switch {
+		case inRootClass && hard == "status:34":
+			c = "root-not-found-abort"
+		case strings.HasPrefix(hard, "incorrect") && wMissedBeforeHard:
+			c = "skip-prefix-mismatch"
+		}
+		o.out.Fail(c, "honest exchange failed with %s", hard)
 		return
 	}
 	sort.Strings(wantMissing)
 	sort.Strings(gotMissing)
 	if strings.Join(wantMissing, " ") != strings.Join(gotMissing, " ") {
-		o.out.Fail(cls("honest-missing"), "missing-block errors at paths [%s], expected exactly [%s]", strings.Join(gotMissing, " "), strings.Join(wantMissing, " "))
+		c := "honest-missing"
+		gotSet, wantSet := map[string]bool{}, map[string]bool{}
+		for _, p2 := range gotMissing {
+			gotSet[p2] = true
+		}
+		for _, p2 := range wantMissing {
+			wantSet[p2] = true
+		}
+		nExtra, okMode := 0, true
+		for p2 := range gotSet {
+			if !wantSet[p2] {
+				nExtra++
+				if k, ok := pathNode[p2]; !ok || !wset[k] {
+					okMode = false // a link outside the skipped window was wrongly reported missing
+				}
+			}
+		}
+		for p2 := range wantSet {
+			if !gotSet[p2] && !belowW(p2, gotSet) {
+				okMode = false // a missing link was not reported, and not because its subtree was cut off
+			}
+		}
+		if okMode && nExtra > 0 {
+			c = "skip-prefix-mismatch"
+		}
+		o.out.Fail(c, "missing-block errors at paths [%s], expected exactly [%s]", strings.Join(gotMissing, " "), strings.Join(wantMissing, " "))
 		return
 	}
 	if rootUnavailable {
 		return
 	}
 	if !complete || !o.closed {
-		o.out.Fail(cls("honest-incomplete"), "honest exchange: delivered %d of %d nodes, closed=%v", len(o.prog), len(visits), o.closed)
+		o.out.Fail("honest-incomplete", "honest exchange: delivered %d of %d nodes, closed=%v", len(o.prog), len(visits), o.closed)
 	}
 	// every block obtained from the responder is stored locally
 	s.mu.Lock()
 	for k := range have {
 		if _, ok := s.store[w.D.Cids[k]]; !ok {
-			o.out.Fail(cls("remote-not-stored"), "block %d was needed and available but is not in the local store afterwards", k)
+			o.out.Fail("remote-not-stored", "block %d was needed and available but is not in the local store afterwards", k)
 		}
 	}
 	s.mu.Unlock()
